@@ -8,21 +8,26 @@ EXTENDS Naturals, Integers, Sequences, FiniteSets
 CONSTANT ReplyLen     \* chunks of a complete reply (only used by the operational layer)
 
 \* ---- the behaviour catalogue
-OkLike      == {"ok0", "ok1", "ok2", "okinfo", "okwarn"}   \* valid reply with 0..2 files; with one file and a diagnostic of level info / warning
+OkLike      == {"ok0", "ok1", "ok2", "okinfo", "okwarn", "oksource"}   \* valid reply with 0..2 files; with one file and a diagnostic (info / warning / naming its source)
 NotStarted  == {"missing", "noexec"}                  \* cannot be spawned
 ExitsBadly  == {"exit1", "exit255", "sigkill", "sigsegv"}
-BadReply    == {"trunc1", "truncmid", "trunclast", "truncat", "badbool", "badutf8", "badlevel", "hugesize", "empty"}
+\* undecodable strings one field at a time (file path, contents, diagnostic message, diagnostic source); "cut" = the string
+\* stops in the middle of a multi-byte character
+BadStrings  == {"badutf8", "badutf8cut", "badcontents", "badcontentsmid", "badmsg", "badmsgcut", "badsource", "badsourcecut"}
+BadReply    == {"trunc1", "truncmid", "trunclast", "truncat", "badbool", "badlevel", "hugesize", "empty"} \cup BadStrings
 Catalogue   == OkLike \cup NotStarted \cup ExitsBadly \cup BadReply \cup {"stderr0", "noread"}
 ReadsAll(b) == b \in OkLike \cup ExitsBadly \cup BadReply \cup {"stderr0"}
-NFilesOf(b) == CASE b \in {"ok1", "okinfo", "okwarn"} -> 1 [] b = "ok2" -> 2 [] OTHER -> 0
+NFilesOf(b) == CASE b \in {"ok1", "okinfo", "okwarn", "oksource"} -> 1 [] b = "ok2" -> 2 [] OTHER -> 0
 \* how many reply chunks a behaviour writes before exiting
-ReplyChunks(b) == CASE b \in OkLike \cup {"badbool", "badutf8", "badlevel", "hugesize"} -> ReplyLen
+ReplyChunks(b) == CASE b \in OkLike \cup BadStrings \cup {"badbool", "badlevel", "hugesize"} -> ReplyLen
                     [] b \in {"trunc1", "truncmid", "trunclast", "truncat"} -> ReplyLen - 1
                     [] OTHER -> 0
 
 ErrClasses == {"err_io", "err_syntax", "err_attr", "err_type", "err_cycle", "err_redef", "err_rule"}
 Classes    == {"clean", "warn"} \cup ErrClasses
-OutDirs    == {"absent", "given", "unusable", "identical", "different"}
+\* the file a generator replies with may exist already: identical (left untouched), different, or sharing a prefix with the
+\* new content - longer (the new content followed by more) or shorter (a proper prefix of it); only "identical" may be skipped
+OutDirs    == {"absent", "given", "unusable", "identical", "different", "longer", "shorter"}
 
 ----------------------------------------------------------------------------------------------------
 (* Declarative layer                                                                                *)
